@@ -135,7 +135,9 @@ ShapeSlots(fam) == CASE fam \in {"ExpWeibull", "GenGamma"} -> {1, 3}
 ScaleSlots(fam) == CASE fam \in {"Normal", "ScipyRayleigh"} -> {1}
                      [] fam = "VonMises" -> {}
                      [] OTHER -> {2}
-ExtLevels(fam, slot) == IF slot \in ShapeSlots(fam) THEN 1..4 ELSE 1..2
+(* norm-fit ratio sigma_norm / mu_norm additionally 1e-9, 1e-6, 1e-4 (levels 5..7): the     *)
+(* variance of the underlying normal is log(1 + ratio^2), which needs log1p there            *)
+ExtLevels(fam, slot) == IF slot \in ShapeSlots(fam) THEN (IF fam = "NormFit" THEN 1..7 ELSE 1..4) ELSE 1..2
 ExtBases(fam, slot) ==
     {cl \in AllClasses(fam) :
         \A k \in 1..NSlots(fam) :
